@@ -65,6 +65,41 @@ class Ctx:
         return base + (1 if self.shard < total % self.nshards else 0)
 
 
+
+class BorrowedAcc:
+    """Lets one property's check reuse another check's oracle: violations go to the real
+    accumulator under ``prefix + key`` and carry ``case_tag`` (so that replay finds the
+    borrowed oracle again); everything else is passed through, extras under a prefix."""
+
+    def __init__(self, acc, prefix, case_tag, keep=None):
+        self._acc, self._prefix, self._tag = acc, prefix, case_tag
+        self._keep = keep  # predicate on the lender's violation keys (None: all)
+        self.inconclusive = acc.inconclusive
+        self.nontrivial = acc.nontrivial
+
+    @property
+    def violations(self):
+        return self._acc.violations
+
+    def violation(self, key, detail, case):
+        if self._keep is not None and not self._keep(key):
+            self._acc.count(self._prefix + 'other-property:' + key)
+            return
+        self._acc.violation(self._prefix + key, detail, dict(case, **self._tag))
+
+    def case(self, case, nontrivial=False, classes=(), sample=None):
+        self._acc.case(dict(case, **self._tag), nontrivial, [self._prefix + c for c in classes], sample)
+
+    def count(self, cls, n=1):
+        self._acc.count(self._prefix + cls, n)
+
+    def skip(self, why, n=1):
+        self._acc.skip(self._prefix + why, n)
+
+    def add_extra(self, name, value):
+        self._acc.add_extra(self._prefix + name, value)
+
+
 class Acc:
     """Accumulates what one shard (or the merged run) covered."""
 
